@@ -2,6 +2,7 @@ package interp
 
 import (
 	"fmt"
+	"regexp"
 	"regexp/syntax"
 	"unicode"
 
@@ -210,9 +211,15 @@ func (ip *Interp) rxMatch(rx *rxObj, s Str) *sym.Term {
 // (-1 for unset groups) of the leftmost-first match. Forks.
 func (ip *Interp) rxFind(rx *rxObj, s Str) []int {
 	run, offs := ip.newRxRun(rx, s)
+	return ip.rxFindFrom(run, offs, 0)
+}
+
+// rxFindFrom searches for the leftmost-first match starting at rune position >= from.
+func (ip *Interp) rxFindFrom(run *rxRun, offs []int, from int) []int {
+	rx := run.rx
 	n := len(run.runes)
 	start := -1
-	for p := 0; p <= n; p++ {
+	for p := from; p <= n; p++ {
 		if ip.decide(run.succ(rx.prog.Start, p)) {
 			start = p
 			break
@@ -317,12 +324,14 @@ func registerRegexp(ip *Interp) {
 		}
 		return Slice{Arr: &arr, Len: len(arr), Cap: len(arr)}
 	})
-	// ReplaceAllString: contract stub - total, arbitrary result (a function of its inputs)
-	ip.regStub("(*regexp.Regexp).ReplaceAllString", func(ip *Interp, fr *frame, a []Value) Value {
-		s := a[1].(Str)
-		rx := rxOf(a[0])
-		repl, _ := a[2].(Str).Concrete()
-		return ip.stubString("ReplaceAllString:"+rx.pat+":"+repl, s, len(s.B)+3)
+	// ReplaceAllString: exact (the loop of regexp.(*Regexp).replaceAll over the
+	// encoded matcher; the replacement template is parsed by Go's own Expand)
+	ip.reg("(*regexp.Regexp).ReplaceAllString", func(ip *Interp, fr *frame, a []Value) Value {
+		repl, ok := a[2].(Str).Concrete()
+		if !ok {
+			panic(unsupported("ReplaceAllString with a symbolic replacement"))
+		}
+		return ip.rxReplaceAll(rxOf(a[0]), a[1].(Str), repl)
 	})
 	ip.reg("(*regexp.Regexp).String", func(ip *Interp, fr *frame, a []Value) Value {
 		return mkStr(ip.ctx, rxOf(a[0]).pat)
@@ -351,4 +360,87 @@ func (ip *Interp) RxEvalConcrete(pat, subject string) (matched bool, caps []int,
 		return false, nil, fmt.Errorf("MatchString and FindStringSubmatchIndex disagree")
 	}
 	return caps != nil, caps, nil
+}
+
+// templatePart is a piece of a replacement template: literal text or a group reference.
+type templatePart struct {
+	lit   string
+	group int // -1 for literal
+}
+
+// parseTemplate obtains the structure of a replacement template from Go's own
+// (*Regexp).Expand: every group is given a unique marker as its text, and the
+// expansion is split at the markers.
+func parseTemplate(rx *rxObj, template string) []templatePart {
+	re := regexp.MustCompile(rx.pat)
+	n := re.NumSubexp() + 1
+	var src []byte
+	match := make([]int, 2*n)
+	for g := 0; g < n; g++ {
+		match[2*g] = len(src)
+		src = append(src, 0xF5, byte(0xF8+g/64), byte(0x80+g%64), 0xF5) // bytes that cannot occur in a template literal of the repository
+		match[2*g+1] = len(src)
+	}
+	out := re.Expand(nil, []byte(template), src, match)
+	var parts []templatePart
+	lit := []byte{}
+	for i := 0; i < len(out); {
+		if out[i] == 0xF5 && i+3 < len(out) && out[i+3] == 0xF5 {
+			if len(lit) > 0 {
+				parts = append(parts, templatePart{lit: string(lit), group: -1})
+				lit = lit[:0]
+			}
+			parts = append(parts, templatePart{group: int(out[i+1]-0xF8)*64 + int(out[i+2]-0x80)})
+			i += 4
+			continue
+		}
+		lit = append(lit, out[i])
+		i++
+	}
+	if len(lit) > 0 {
+		parts = append(parts, templatePart{lit: string(lit), group: -1})
+	}
+	return parts
+}
+
+func (ip *Interp) rxReplaceAll(rx *rxObj, s Str, template string) Str {
+	parts := parseTemplate(rx, template)
+	run, offs := ip.newRxRun(rx, s)
+	n := len(run.runes)
+	var out []*sym.Term
+	lastMatchEnd := 0 // byte offset
+	searchPos := 0    // rune index
+	for searchPos <= n {
+		caps := ip.rxFindFrom(run, offs, searchPos)
+		if caps == nil {
+			break
+		}
+		out = append(out, s.B[lastMatchEnd:caps[0]]...)
+		// not for a match of the empty string immediately after another match
+		if caps[1] > lastMatchEnd || caps[0] == 0 {
+			for _, p := range parts {
+				if p.group < 0 {
+					out = append(out, mkStr(ip.ctx, p.lit).B...)
+				} else if 2*p.group+1 < len(caps) && caps[2*p.group] >= 0 {
+					out = append(out, s.B[caps[2*p.group]:caps[2*p.group+1]]...)
+				}
+			}
+		}
+		lastMatchEnd = caps[1]
+		// advance past this match; always advance at least one rune
+		endRune := searchPos
+		for endRune <= n && offs[endRune] < caps[1] {
+			endRune++
+		}
+		switch {
+		case searchPos < n && offs[searchPos+1] > caps[1]:
+			searchPos++
+		case searchPos >= n && offs[n] >= caps[1]:
+			searchPos++
+		default:
+			searchPos = endRune
+		}
+	}
+	out = append(out, s.B[lastMatchEnd:]...)
+	return strOf(out)
 }
